@@ -2,17 +2,24 @@ SPECIFICATION Spec
 CONSTANTS
   Targets <- T2
   Sensors <- S2
+  InitTargets <- T2
+  InitSensors <- S2
   Engines <- E1
   EngTargets <- AllT
   EngSensors <- AllS
   Policy <- PolGreedy
   NSteps = 1
+  Dt = 1
   OutEvery = 1
+  Events <- NoEvents
   WithEstimation = TRUE
   WithSerendipity = TRUE
+  WithFaults = FALSE
   ResetChangesPerJob = FALSE
   MissListSquared = FALSE
   KeepMissedAcrossSteps = FALSE
+  PriorityToAllEngines = FALSE
+  PruneKeepsEqual = FALSE
 INVARIANT OneRecordPerTasking
 INVARIANT NoRecordWithoutTasking
 INVARIANT PointingReflectsTasking
@@ -25,4 +32,11 @@ INVARIANT EstimatesAtClock
 INVARIANT DbComplete
 INVARIANT DbNoDup
 INVARIANT DbRefs
-INVARIANT ObsRowsHaveEpoch
+INVARIANT ExactlyOnceInstant
+INVARIANT DurationActiveExactly
+INVARIANT OnlyAddressee
+INVARIANT DvOnce
+INVARIANT NeverTwice
+INVARIANT BiasActiveExactly
+PROPERTY NonInterference
+PROPERTY CommitAtomic
